@@ -225,13 +225,17 @@ HISTORIES = [
     ("seed keys cached by unprotect survive a later public-key protect", [("unprotect", 0), ("protect_pub",), ("unprotect", 1)], [1, 1, 0]),
     ("loading a different root key leaves the envelopes cached for this one alone", [("unprotect", 0), ("load_other",), ("unprotect", 1), ("unprotect", 0)], [1, 0, 0, 0]),
     ("an empty cache handed in by the caller is the one that gets filled", [("unprotect", 0), ("unprotect", 0), ("unprotect", 1)], [1, 0, 0]),
+    # two calls in flight on one cache (two tasks / two threads): while the call for the EARLIER blob waits for its GetKey reply, a call for the LATER blob runs
+    # to completion; afterwards the cache must still hold the later envelope
+    ("a call for a later position completes while a call for an earlier one waits for the DC", [("unprotect_during", 1, 0), ("unprotect", 0), ("unprotect", 1)], [2, 0, 0]),
+    ("a call for an earlier position completes while a call for a later one waits for the DC", [("unprotect_during", 0, 1), ("unprotect", 0), ("unprotect", 1)], [2, 0, 0]),
 ]
 BLOBS = [(361, 9, 4, 0), (361, 3, 7, 0), (361, 9, 5, 0), (362, 1, 1, 0), (361, 9, 4, 1)]  # (l0, l1, l2, sid index)
 
 
 @harness(P, per_job=True, params=lambda tier: [dict(h=i, flavour=f) for i in range(len(HISTORIES)) for f in (("sync",) if tier == "quick" and i < 7 else ("sync", "async"))],
          max_steps=4000000, raises=(e2e.ScalarOutOfRange,),
-         bounds="11 listed operation histories (up to 4 calls) over {load root key, load another root key, unprotect blobs at 5 listed positions on 2 L0s / 2 SIDs, protect now with a seed-key or a public-key reply} through the public API against "
+         bounds="13 listed operation histories (up to 4 calls; two of them with a second call running to completion while the first waits for its GetKey reply) over {load root key, load another root key, unprotect blobs at 5 listed positions on 2 L0s / 2 SIDs, protect now with a seed-key or a public-key reply} through the public API against "
          "a conforming-DC stub that counts GetKey calls; plaintexts symbolic", outside="other histories (the inductive steps above cover histories of any length at cache level)",
          must_reach=("same plaintext as with a fresh cache", "domain controller contacted exactly when no covering material was cached"))
 def histories(c, h, flavour):
@@ -240,10 +244,24 @@ def histories(c, h, flavour):
     lo, _ = e2e.window(361, 9, 6, -5, -5)
     dc_holder = {}
 
+    pending = {}
+
     def sync_get_key(*a, **k):
+        if pending:
+            blob_, pt_ = pending.pop("other")
+            out_ = c.call(dpapi_ng.ncrypt_unprotect_secret, blob_, server="dc", cache=pending.pop("cache"))
+            c.check(seq_eq(out_, pt_), "same plaintext as with a fresh cache")
         return dc_holder["dc"].get_key(*a, **k)
 
     async def async_get_key(*a, **k):
+        if pending:
+            blob_, pt_ = pending.pop("other")
+            cache_ = pending.pop("cache")
+            if c.symbolic:
+                out_ = c.call_async(dpapi_ng.async_ncrypt_unprotect_secret, blob_, server="dc", cache=cache_)
+            else:
+                out_ = await dpapi_ng.async_ncrypt_unprotect_secret(blob_, server="dc", cache=cache_)
+            c.check(seq_eq(out_, pt_), "same plaintext as with a fresh cache")
         return dc_holder["dc"].get_key(*a, **k)
 
     w = e2e.new_world(c, lo, lo, extra=[(_client._sync_get_key, sync_get_key), (_client._async_get_key, async_get_key)])
@@ -280,6 +298,8 @@ def histories(c, h, flavour):
                 c.check(all_of([y.key_identifier.l0 == 361, y.key_identifier.l1 == 9, y.key_identifier.l2 == 6]), "protect names the current interval")
         else:
             i = arg[0]
+            if op == "unprotect_during":
+                pending["other"], pending["cache"] = (blobs[arg[1]], pts[arg[1]]), cache
             blob, pt = (last_protected, ppt) if i == -1 else (blobs[i], pts[i])
             if flavour == "sync":
                 out = c.call(dpapi_ng.ncrypt_unprotect_secret, blob, server="dc", cache=cache)
